@@ -708,6 +708,15 @@ func (f *Frame) run(args []Val, free []Val, mem *Mem, gh *Ghost, reach *Term, st
 	for i, fv := range f.fn.FreeVars {
 		env0[fv] = free[i]
 	}
+	if f.top && f.con != nil {
+		for _, ac := range f.con.Afters {
+			if ac.Init {
+				_, rt := f.afterInstr(ac)
+				env0[ghostKey{ac.Name}] = e.zeroVal(rt)
+				f.boundTypes[ac.Name] = rt
+			}
+		}
+	}
 	if f.top && f.con != nil && len(f.con.Unpack) > 0 {
 		for i, p := range f.fn.Params {
 			for _, n := range f.con.Unpack {
@@ -962,7 +971,21 @@ func (f *Frame) cutLoop(n *xnode, li *loopInfo, st *execState) {
 		if phi.Comment != "" {
 			hint = phi.Comment + "@" + phi.Name()
 		}
+		e.dynVals = true
 		st.env[phi] = e.freshVal(fmt.Sprintf("%s.L%d.%s", f.fn.Name(), li.ordinal, hint), phi.Type(), &inv)
+		e.dynVals = false
+	}
+	if f.con != nil {
+		for _, ac := range f.con.Afters {
+			if !ac.Init {
+				continue
+			}
+			if c, rt := f.afterInstr(ac); li.body[c.Block()] {
+				e.dynVals = true
+				st.env[ghostKey{ac.Name}] = e.freshVal(fmt.Sprintf("%s.L%d.ghost.%s", f.fn.Name(), li.ordinal, ac.Name), rt, &inv)
+				e.dynVals = false
+			}
+		}
 	}
 	for _, t := range inv {
 		e.assume(tb.Implies(st.reach, t))
@@ -1275,11 +1298,14 @@ func (f *Frame) execBlock(n *xnode, st *execState) {
 			st.mem = e.store(st.mem, addr, t, v)
 		case ssa.Value:
 			if call, ok := x.(*ssa.Call); ok && f.con != nil && len(f.con.Ats) > 0 {
-				f.atCall(st, call)
+				f.atCall(st, call, false)
 			}
 			v := f.execValue(n, st, x)
 			if call, ok := x.(*ssa.Call); ok && f.con != nil && len(f.con.Afters) > 0 && v != nil {
 				f.afterCall(st, call, v)
+			}
+			if call, ok := x.(*ssa.Call); ok && f.con != nil && len(f.con.Ats) > 0 {
+				f.atCall(st, call, true)
 			}
 			if v != nil {
 				st.env[x] = v
@@ -1288,6 +1314,9 @@ func (f *Frame) execBlock(n *xnode, st *execState) {
 				}
 			}
 		case *ssa.MapUpdate:
+			if f.con != nil && len(f.con.Ats) > 0 {
+				f.atMapUpdate(st, x)
+			}
 			e.noteAbstract(f, "map update")
 		case *ssa.Go, *ssa.Send:
 			panic(fmt.Sprintf("%s: unsupported instruction %T", f.fn.Name(), ins))
@@ -1479,6 +1508,29 @@ func (ghostKey) Parent() *ssa.Function         { return nil }
 func (ghostKey) Referrers() *[]ssa.Instruction { return nil }
 func (ghostKey) Pos() token.Pos                { return token.NoPos }
 
+// afterInstr finds the call an "after call" clause is attached to and the type
+// of the result it names.
+func (f *Frame) afterInstr(ac AfterClause) (*ssa.Call, types.Type) {
+	f.atCallOrdinals()
+	for _, b := range f.fn.Blocks {
+		for _, ins := range b.Instrs {
+			c, ok := ins.(*ssa.Call)
+			if !ok || calleeName(c) != ac.Callee || f.callOrd[c] != ac.Nth {
+				continue
+			}
+			rt := c.Type()
+			if tt, ok := rt.(*types.Tuple); ok {
+				if ac.Result >= tt.Len() {
+					panic(specError{"after call: no such result"})
+				}
+				rt = tt.At(ac.Result).Type()
+			}
+			return c, rt
+		}
+	}
+	panic(specError{"after call: no call " + ac.Callee + " with that ordinal"})
+}
+
 func (f *Frame) afterCall(st *execState, call *ssa.Call, v Val) {
 	f.atCallOrdinals()
 	name := calleeName(call)
@@ -1539,22 +1591,44 @@ func (f *Frame) atCallOrdinals() {
 }
 
 // atCall processes "at call" clauses attached to this call instruction.
-func (f *Frame) atCall(st *execState, call *ssa.Call) {
-	e := f.e
+func (f *Frame) atCall(st *execState, call *ssa.Call, after bool) {
 	name := calleeName(call)
 	if name == "" {
 		return
 	}
 	f.atCallOrdinals()
+	f.atSite(st, name, f.callOrd[call], call.Block(), call.Call.Args, call.Pos(), after)
+}
+
+// atMapUpdate processes "at call mapupdate#n" clauses: the n-th map assignment
+// (in block order) is a program point like a call, with the map, the key and
+// the stored value visible as arg0, arg1, arg2.
+func (f *Frame) atMapUpdate(st *execState, mu *ssa.MapUpdate) {
+	ord := 0
+	for _, b := range f.fn.Blocks {
+		for _, ins := range b.Instrs {
+			if m, ok := ins.(*ssa.MapUpdate); ok {
+				ord++
+				if m == mu {
+					f.atSite(st, "mapupdate", ord, mu.Block(), []ssa.Value{mu.Map, mu.Key, mu.Value}, mu.Pos(), false)
+					return
+				}
+			}
+		}
+	}
+}
+
+func (f *Frame) atSite(st *execState, name string, ord int, blk *ssa.BasicBlock, siteArgs []ssa.Value, pos token.Pos, after bool) {
+	e := f.e
 	for _, ac := range f.con.Ats {
-		if ac.Callee != name {
+		if ac.Callee != name || ac.After != after {
 			continue
 		}
 		if ac.Loop > 0 {
-			if ac.Loop > len(f.loops) || !f.loops[ac.Loop-1].body[call.Block()] {
+			if ac.Loop > len(f.loops) || !f.loops[ac.Loop-1].body[blk] {
 				continue
 			}
-		} else if ac.Nth != f.callOrd[call] {
+		} else if ac.Nth != ord {
 			continue
 		}
 		// clauses speak about memory: unpacked objects are written back into a
@@ -1567,7 +1641,7 @@ func (f *Frame) atCall(st *execState, call *ssa.Call) {
 		}
 		sc := f.scopeAt(stv, nil)
 		// the call's own arguments are visible as arg0, arg1, ...
-		for i, a := range call.Call.Args {
+		for i, a := range siteArgs {
 			sc.vars[fmt.Sprintf("arg%d", i)] = e.svOf(f.operand(st.env, a), a.Type())
 		}
 		if ac.Assume {
@@ -1580,7 +1654,7 @@ func (f *Frame) atCall(st *execState, call *ssa.Call) {
 		if ac.Rewrite == "" {
 			sc.goal = true
 			g := e.evalBool(sc, ac.C.Expr, ac.C.Text)
-			f.oblige(st, "assert", ac.C.Label, st.reach, g, call.Pos(), "intermediate assertion: "+ac.C.Text)
+			f.oblige(st, "assert", ac.C.Label, st.reach, g, pos, "intermediate assertion: "+ac.C.Text)
 			f.markSplit()
 			e.assume(e.tb.Implies(st.reach, g))
 			continue
@@ -1594,7 +1668,7 @@ func (f *Frame) atCall(st *execState, call *ssa.Call) {
 		sc.what = ac.C.Text
 		nv := sc.eval(ac.C.Expr)
 		nt := sc.toInt(nv, cur.t.sort.W, cur.signed)
-		f.oblige(st, "assert", ac.C.Label, st.reach, e.tb.Eq(cur.t, nt), call.Pos(), "rewrite "+ac.Rewrite+" := "+ac.C.Text)
+		f.oblige(st, "assert", ac.C.Label, st.reach, e.tb.Eq(cur.t, nt), pos, "rewrite "+ac.Rewrite+" := "+ac.C.Text)
 		f.markSplit()
 		// substitute in the environment: every SSA value currently bound to the old term
 		for k, v := range st.env {
